@@ -322,7 +322,8 @@ Definition r_enumeration_index (m : mode) (std_variants : N) (extensible : bool)
     let! (ext, s) := r_bit s in
     if ext then
       let! (n, s) := r_normally_small m s in
-      let! v := uadd m n std_variants in Ok (v, s)
+      (* checked_add *)
+      if n + std_variants <? two64 then Ok (n + std_variants, s) else Err E_INVALID_CHOICE
     else small s
   else small s.
 
